@@ -3,6 +3,7 @@
    Definitions only. *)
 From ChiaV.Base Require Import Bytes.
 From ChiaV.Clvm Require Import Sexp TreeHash.
+From ChiaV.Gen Require Import ChainConsts.
 From ChiaV.Cond Require Import Model.
 From ChiaV.Chain Require Import Backref Rom Generator Trusted.
 Open Scope N_scope.
@@ -56,6 +57,29 @@ Definition native_generator_output (run : sexp -> sexp -> N -> res (N * sexp))
   args <- setup_generator_args refs gf ;;
   '(_, out) <- run_program run prog args cost_left ;;
   Ok out.
+
+
+(* ---------------- rebuilding a generator from the recovered coin spends ---------------- *)
+(* a tree whose plain serialization exists and stays within node_to_bytes' 2 000 000 byte limit *)
+Definition fits (t : sexp) : Prop := exists b, ser t = Some b /\ nlen b <= 2000000.
+Definition fits_tuple (t : sexp * sexp * sexp * sexp) : Prop := let '(_, pz, _, sol) := t in fits pz /\ fits sol.
+Definition tuple_item (t : sexp * sexp * sexp * sexp) : sexp :=
+  let '(p, pz, am, sol) := t in Pair p (Pair pz (Pair am (Pair sol nil))).
+(* the spend list of the rebuilt generator: the accepted tuples in their order, spend-level extras dropped, nil terminated *)
+Definition rebuilt_spends (iter : sexp) : sexp := fold_right Pair nil (map tuple_item (spend_tuples iter)).
+Definition rebuilt_generator (iter : sexp) : sexp := Pair (Atom [x01]) (Pair (rebuilt_spends iter) nil).
+
+(* the condition view get_coinspends_with_conditions_for_trusted_block reports for a spend tuple: the scan
+   csc_conditions of the puzzle's output *)
+Definition tuple_conditions (run : sexp -> sexp -> N -> res (N * sexp)) (t : sexp * sexp * sexp * sexp) : list (N * list bytes) :=
+  let '(_, pz, _, sol) := t in
+  match run_program run pz sol MAX_BLOCK_COST_CLVM with
+  | Ok (_, conds) => csc_conditions conds []
+  | Err _ => []
+  end.
+Definition csc_of (run : sexp -> sexp -> N -> res (N * sexp)) (st : spend * (sexp * sexp * sexp * sexp))
+  : coin_spend * list (N * list bytes) :=
+  (coin_spend_of_tuple (fst st) (snd st), tuple_conditions run (snd st)).
 
 (* witnesses: one spend of coin (0x11*32, puzzle, 10) whose puzzle is (q . ((51 0x22*32 5 . MEMO_TAIL))) *)
 Definition cc_generator (memo_tail : sexp) (spend_tail : sexp) : bytes :=
